@@ -18,7 +18,7 @@ ASSUMPTIONS = ["scope is the property's own: single-action final strategies on t
                "checked exactly; out-of-scope solves are skipped and counted",
                "band delta*T_max(s) + eps on both diagnostics"]
 TIMEOUT = 1800
-TABLE = [("G-ACYW", 700), ("G-CYCW", 700), ("G-LEX", 400), ("G-DEAD", 400), ("G-P2MIN", 500), ("G-SLOW", 80), ("G-TINYB", 300), ("G-AUXFAST", 40), ("G-P2NEST", 400), ("G-CORR", 400), ("G-GAP", 150)]
+TABLE = [("G-ACYW", 700), ("G-CYCW", 700), ("G-LEX", 400), ("G-DEAD", 400), ("G-P2MIN", 500), ("G-SLOW", 80), ("G-TINYB", 300), ("G-AUXFAST", 40), ("G-P2NEST", 400), ("G-CORR", 400), ("G-GAP", 150), ("G-RETRY", 400)]
 
 
 def plan(tier, seed):
